@@ -87,7 +87,14 @@ class ScriptedSubprocess(object):
                 n = pr.rec['n'] if pr is not None else None
             except ValueError:
                 pass
-        self.log.add('sudo', verb, cmd, None if env is None else ('os.environ' if env is os.environ else 'other'), n)
+        # `sudo` is looked up like the real Popen would: on the PATH of the environment handed over
+        # (os.defpath if that has no PATH); the stand-in "lives" in /usr/bin
+        search = (env if env is not None else os.environ).get('PATH', os.defpath)
+        found = '/usr/bin' in search.split(':')
+        self.log.add('sudo', verb, cmd, None if env is None else ('os.environ' if env is os.environ else 'other'), n,
+                     found)
+        if not found:
+            raise FileNotFoundError(2, 'No such file or directory', 'sudo')
         if cmd[:1] != ['sudo']:
             raise lib.InfraError('denoise_client ran something that is not sudo: %r' % (cmd,))
         r = self.report
@@ -234,8 +241,33 @@ def run_denoise_session(workdir, argv, script, report, cset=None, num_cores=4, n
 
 
 # ------------------------------------------------------ parallel scheduler
+class BrokenPipeStream(io.StringIO):
+    """stdout whose reader has left: after `ok_writes` successful writes every write / flush raises"""
+    def __init__(self, ok_writes):
+        io.StringIO.__init__(self)
+        self.ok_writes = ok_writes
+        self.broken_at = None
+
+    def _check(self):
+        if self.ok_writes <= 0:
+            if self.broken_at is None:
+                self.broken_at = len(self.getvalue())
+            raise BrokenPipeError(32, 'Broken pipe')
+
+    def write(self, text):
+        self._check()
+        self.ok_writes -= 1
+        return io.StringIO.write(self, text)
+
+    def flush(self):
+        self._check()
+
+    def isatty(self):
+        return False
+
+
 def run_parallel_session(workdir, argv, script, report, cpu_count=8, cset=None, num_cores=4, no_denoise=False,
-                         wait=8.0, log=None):
+                         wait=8.0, log=None, out_stream=None):
     """like `run_denoise_session`, for the parallel scheduler (`cpu_count` > 1 and runs that are
     not exclusive).  The scripted world stays in place until every `BenchmarkThread` has ended:
     after an interrupt the worker threads of the pinned tree keep starting processes, and they
@@ -252,7 +284,7 @@ def run_parallel_session(workdir, argv, script, report, cpu_count=8, cset=None, 
         args = ['rebench'] + list(argv) + (['-D'] if no_denoise else [])
         drive._fast_environment()
         old_cwd, old_argv, old_cpu = os.getcwd(), sys.argv, drive.rb_exec.cpu_count
-        out, err = io.StringIO(), io.StringIO()
+        out, err = (out_stream if out_stream is not None else io.StringIO()), io.StringIO()
         os.chdir(workdir)
         sys.argv = args
         drive.rb_exec.cpu_count = lambda: cpu_count
